@@ -189,6 +189,8 @@ type State struct {
 	panicked string // a runtime panic was reached while evaluating an expression
 	bs       byte // kind of the top of the build stack: 'K' a pending key, 'M' the object being filled, 'O' anything else, 0 unknown
 	pendingRestore byte // Saved kind of the container frame popped in this arm
+	readFirst map[string]bool // tracked fields read before written in this arm (liveness sampling)
+	decisions []string // outcomes of conditions over untracked data taken in this arm (self product: the two sides must agree on them)
 	assigned map[string]bool // receiver fields assigned in this arm
 	garbage  map[string]bool // scratch buffers whose content was consumed (or is left over) and not truncated since
 }
@@ -251,6 +253,12 @@ func (s *State) clone() *State {
 		n.assigned = make(map[string]bool, len(s.assigned))
 		for k := range s.assigned {
 			n.assigned[k] = true
+		}
+	}
+	if s.readFirst != nil {
+		n.readFirst = make(map[string]bool, len(s.readFirst))
+		for k := range s.readFirst {
+			n.readFirst[k] = true
 		}
 	}
 	if s.garbage != nil {
